@@ -9,10 +9,12 @@ Variable prog : qkey -> body.
 Variable noeq : qkey -> bool.
 Variable pfam : N -> bool.
 
-(* the memo as serialised: everything but the origin edges is kept, the edges are flattened *)
+(* the memo as serialised: value and stamps are kept, the edges are flattened, and the origin
+   becomes untracked when flattening expanded a dependency with untracked reads (fix e43c20c) *)
 Definition flat_memo (mm : qkey -> option memo) (fuel : nat) (m : memo) : memo :=
   {| m_val := m_val m; m_verified := m_verified m; m_changed := m_changed m; m_dur := m_dur m;
-     m_untracked := m_untracked m; m_edges := flatten pfam mm fuel (m_edges m) |}.
+     m_untracked := m_untracked m || lost_untracked pfam mm fuel (m_edges m);
+     m_edges := flatten pfam mm fuel (m_edges m) |}.
 
 Definition serialised (s : db) (q : qkey) : Prop :=
   pfam (fst q) = true /\ exists m v, d_memo s q = Some m /\ m_val m = Some v.
@@ -21,8 +23,8 @@ Theorem roundtrip (fuel : nat) (s ext : db) (lru0 : N -> lru_state) :
   let s' := restore (snapshot pfam fuel s) ext lru0 in
   (* the runtime revisions and every input slot (value, stamp, durability) *)
   d_revs s' = d_revs s /\ (forall i, d_in s' i = d_in s i) /\
-  (* every memo of a persisted function that has a value: value, stamps, durability, untracked
-     flag kept; edges flattened *)
+  (* every memo of a persisted function that has a value: value, stamps, durability kept; edges
+     flattened; untracked if it was, or if an expanded dependency was *)
   (forall q m v, pfam (fst q) = true -> d_memo s q = Some m -> m_val m = Some v ->
      d_memo s' q = Some (flat_memo (d_memo s) fuel m)) /\
   (* nothing else: memos of non-persisted functions and value-less memos are gone *)
